@@ -8,8 +8,9 @@ from . import core, env, tlc
 
 
 def registry():
-    from . import p_binary, p_layout, p_file, p_cuts, p_writer, p_schema, p_logical, p_data, p_resolve, p_json, p_load
+    from . import p_binary, p_layout, p_file, p_cuts, p_writer, p_schema, p_logical, p_data, p_resolve, p_json, p_load, p_forms
     return {
+        "C12": p_forms.run_c12,
         "C19": p_load.run_c19,
         "C15": p_json.run_c15,
         "C08": p_resolve.run_c08,
